@@ -600,7 +600,7 @@ def loops_of(fn):
 
 HEADER = "From Snax Require Import Base.Prelude Model.C17Loop.\nLocal Open Scope nat_scope.\n"
 L1_TEST = ("fun c : list var * list op * rule * list nat * list op => match c with (args, b, r, p, a) => "
-           "wf_prog args b && match rewrite r p b with Some b' => block_eqb (canon %d%%nat b') (canon %d%%nat a) | None => false end end" % (BASE, BASE))
+           "wf_prog args b && match rewrite_in args r p b with Some b' => wf_prog args b' && block_eqb (canon %d%%nat b') (canon %d%%nat a) | None => false end end" % (BASE, BASE))
 FIX_TEST = ("fun c : list op * rule * list nat => match c with (b, r, p) => "
             "match rewrite r p b with Some _ => false | None => true end end")
 
